@@ -14,7 +14,7 @@ MC_WORLD = {
 }
 MC_PAR = [("ParSplit.cfg", "split algebra of the zipped column producers (slice_mut, RepeatNone, slice) over 5 rows, every split tree"),
           ("ParSplitBug.cfg", "SELF-TEST: RepeatNone.split_at with the wrong right-hand count must lose a row")]
-MC_INV = {"C01": "Inv_C01", "C02": "Inv_C02", "C13": "Inv_C13", "C06": "Inv_C06", "C10": "Inv_C01"}
+MC_INV = {"C16": "Inv_C16", "C01": "Inv_C01", "C02": "Inv_C02", "C13": "Inv_C13", "C06": "Inv_C06", "C10": "Inv_C01"}
 
 def run_mc_world(tier):
     key = content_key()
@@ -47,7 +47,7 @@ WORLD_NOTES = {
     "C15": ("exploration", "resource addressing: get_mut / view_resources / query resource views in 14 subset-order-mutability variants, plus frame checks on every entity operation, clone and serde"),
     "C03": ("exploration", "a generated family of 132 queries (every view kind alone and pairwise, view order, identifier view, nested filters incl. views used as filters, World::entry queries, every super-view/sub-view pairing of query-time Entries, iteration combined with entry views) run against every world state the histories pass through; TLC evaluates the query on the reference map and compares result set/multiset, per-item values and tokens, Option-ness, writes, and size_hint brackets"),
     "C09": ("model_checking", "spec/ParSplit.tla (every split tree of the zipped column producers yields every row exactly once; the wrong RepeatNone split is a checked self-test) + par_query over the parallel part of the query family on worlds with many/empty/short/long tables (up to ~80 rows) under rayon pools of 1,2,3,4,8,16 threads; TLC compares the multiset of results with the reference map's answer, the writes with the sequential semantics, and requires the addresses of mutably yielded values to be pairwise distinct"),
-    "C16": ("exploration", "== logged for every ordered pair of live worlds after every event; TLC checks reflexivity, symmetry, eq => same content, and eq after clone / serde"),
+    "C16": ("model_checking", "MCWorld Inv_C16 on the 2-world instances (the strict StoreEq is reflexive, symmetric and implies the same reference map) and the real == compared with StoreEq on the observed stores (drift check) + == logged for every ordered pair of live worlds after every event; TLC checks reflexivity, symmetry, eq => same content, and eq after clone / serde"),
 }
 
 def relevant(prop, st):
